@@ -28,6 +28,8 @@ FORBIDDEN = {'-wal', '-shm', '-lock', '-journal', '.wal', '.shm', '.lock', '.jou
 CTORS = ('Memvid::create', 'Memvid::open', 'Memvid::open_read_only_with_options', 'Memvid::try_open')
 
 
+OWN_CONFIGS = True    # this module selects its feature configurations itself
+
 def run(ctx):
     ctx.rule('PROV-C19a', 'every file-system creation reachable from the API targets the memory path itself, the system temp directory or the atomic staging object')
     ctx.rule('PAIR-C19b', 'CommitStaging::prepare is followed by commit / discard / drop on every path')
